@@ -1,6 +1,9 @@
 use crate::report::{self, Tier};
 
+pub mod c01;
 pub mod c02;
+pub mod c03;
+pub mod c04;
 
 pub fn replay_value(path: &str) -> serde_json::Value {
     let s = std::fs::read_to_string(path).unwrap_or_else(|e| {
@@ -50,7 +53,10 @@ pub fn run_e1(
 
 pub fn dispatch(prop: &str, tier: Tier, replay: Option<String>) -> i32 {
     match prop {
+        "C01" => c01::run(tier, replay),
         "C02" => c02::run(tier, replay),
+        "C03" => c03::run(tier, replay),
+        "C04" => c04::run(tier, replay),
         _ => {
             eprintln!("unknown property {prop}");
             2
